@@ -96,7 +96,10 @@ fn native_enum_store_root_proofs_witness() {
                     let mut o = Options::new();
                     o.path(dir.path().join("db"));
                     o.commit_concurrency(workers);
-                    o.hashtable_buckets(4096);
+                    // a small hash table for the single-worker reopening runs: with about a dozen stored
+                    // pages in 32 buckets probe sequences collide and run over tombstones, and every
+                    // reopen starts from a cold page cache
+                    o.hashtable_buckets(if workers == 1 && reopen { 32 } else { 4096 });
                     o.bitbox_seed([3; 16]);
                     if workers > 1 {
                         // the other end of the tuning space: tiny caches, warm-up on, more I/O workers,
